@@ -118,9 +118,10 @@ def part_a(ctx: ShardCtx, res: ShardResult, env) -> None:
             class K:   # KeyTuple has no `computed`; models.Key has -- mimic the model interface
                 pass
             klist = []
+            dflt = rng.randrange(nkeys)         # the default key is not always the first of the set
             for j in range(nkeys):
-                k_id = kid if j == 0 else rng.randbytes(16)
-                k_key = key if j == 0 else rng.randbytes(16)
+                k_id = kid if j == dflt else rng.randbytes(16)
+                k_key = key if j == dflt else rng.randbytes(16)
                 obj = K()
                 obj.KID, obj.KEY, obj.ALG = KeyMaterial(raw=k_id), KeyMaterial(raw=k_key), 'AESCTR'
                 obj.computed = rng.random() < 0.5
@@ -130,7 +131,7 @@ def part_a(ctx: ShardCtx, res: ShardResult, env) -> None:
             ver = rng.choice([None, 1.0, 2.0, 3.0, 4.0])
             cls, la = rng.choice(LA_URLS)
             p = PlayReady(la_url=None, version=ver, header_version=hv)
-            tag = f'hv{hv}|v{ver}|n{nkeys}|{cls}'
+            tag = f'hv{hv}|v{ver}|n{nkeys}|{cls}|{"first" if dflt == 0 else "later"}-default'
             replay = {'pro_case': {'kids': [a.hex() for a, _ in klist], 'keys': [b.hex() for _, b in klist],
                                    'header_version': hv, 'version': ver, 'la_url': la}}
             try:
@@ -394,6 +395,17 @@ def part_c(ctx: ShardCtx, res: ShardResult, env) -> None:
                                 p = ib.read_pssh(r.data, b)
                                 init_psshs[p['system_id']] = r.data[b.start:b.end]
                 return init_psshs
+            # the init segment the manifest points at carries a pssh box of a system exactly when "moov" is
+            # one of the locations requested for it
+            have = init_boxes()
+            res.count('c.init_locations_checked')
+            for sysname, sid in (('playready', pr.SYSTEM_ID), ('clearkey', pr.CLEARKEY_PSSH_SYSTEM_ID)):
+                want_in_moov = sysname in exp and 'moov' in exp[sysname]
+                if (sid in have) != want_in_moov:
+                    res.violation('init-segment-of-manifest-pssh-location-mismatch',
+                                  f'{url}: {rep.id}: the init segment named by the manifest ({rep.init_url()}) '
+                                  f'{"carries" if sid in have else "lacks"} a {sysname} pssh; requested locations '
+                                  f'{sorted(exp.get(sysname, []))}', rp)
             if 'playready' in exp:
                 locs = exp['playready']
                 els = by_scheme.get(PR_URN, []) + by_scheme.get(PR_URN_V1, [])
